@@ -2,6 +2,7 @@ package pcrypto
 
 import (
 	"bytes"
+	"github.com/aperturerobotics/bifrost/crypto"
 	"testing"
 
 	"github.com/aperturerobotics/bifrost/peer"
@@ -23,6 +24,12 @@ type c12Case struct {
 	// SwapPrefix replaces the first 36 bytes by those of another ciphertext.
 	SwapPrefix bool        `json:"swap_prefix"`
 	Raw        vstat.Bytes `json:"raw"`
+	// Seq, for an untampered same-key same-context case: "right-then-hybrid" / "hybrid-then-right" decrypts twice in
+	// a row, once with the right key and once with a key that shares its public half but has another seed
+	// (HybridPos/HybridBit select the flipped seed bit)
+	Seq       string `json:"seq,omitempty"`
+	HybridPos int    `json:"hybrid_pos,omitempty"`
+	HybridBit int    `json:"hybrid_bit,omitempty"`
 }
 
 func genC12(t *rapid.T) c12Case {
@@ -51,6 +58,9 @@ func genC12(t *rapid.T) c12Case {
 		c.Muts = append(c.Muts, gen.GenMut(t, "m"))
 	}
 	c.SwapPrefix = rapid.IntRange(0, 9).Draw(t, "swap") == 0
+	c.Seq = rapid.SampledFrom([]string{"", "", "right-then-hybrid", "hybrid-then-right"}).Draw(t, "seq")
+	c.HybridPos = rapid.IntRange(0, 31).Draw(t, "hpos")
+	c.HybridBit = rapid.IntRange(0, 7).Draw(t, "hbit")
 	return c
 }
 
@@ -114,6 +124,43 @@ func checkC12(c c12Case) (o vstat.Outcome) {
 	}
 	if mutated {
 		o.Classes = append(o.Classes, "mutated-ciphertext")
+	}
+	if same && c.Seq != "" {
+		// a key object with the genuine public half and a different seed: a different private key
+		raw, _ := kd.Raw()
+		hyb := append([]byte{}, raw...)
+		hyb[c.HybridPos%32] ^= 1 << (uint(c.HybridBit) % 8)
+		hk, herr := crypto.UnmarshalEd25519PrivateKey(hyb)
+		if herr == nil {
+			o.NonTrivial = true
+			o.Classes = append(o.Classes, "sequence:"+c.Seq)
+			o.V = vstat.Guard("DecryptWithPrivKey", func() *vstat.Violation {
+				tryRight := func() *vstat.Violation {
+					pt, err := peer.DecryptWithPrivKey(kd, c.CtxD, ct)
+					if err != nil || !bytes.Equal(pt, msg) {
+						return vstat.Viol("roundtrip-failed", "%s: decrypt(encrypt(m)) with the right key failed: %v", c.Seq, err)
+					}
+					return nil
+				}
+				tryHybrid := func() *vstat.Violation {
+					if pt, err := peer.DecryptWithPrivKey(hk, c.CtxD, ct); err == nil {
+						return vstat.Viol("decrypts-despite-difference", "%s: a key with another seed (same public half) decrypted the message, plaintext equal=%v", c.Seq, bytes.Equal(pt, msg))
+					}
+					return nil
+				}
+				steps := []func() *vstat.Violation{tryRight, tryHybrid}
+				if c.Seq == "hybrid-then-right" {
+					steps = []func() *vstat.Violation{tryHybrid, tryRight}
+				}
+				for _, st := range steps {
+					if v := st(); v != nil {
+						return v
+					}
+				}
+				return nil
+			})
+			return
+		}
 	}
 	o.V = vstat.Guard("DecryptWithPrivKey", func() *vstat.Violation {
 		pt, err := peer.DecryptWithPrivKey(kd, c.CtxD, ct)
